@@ -19,6 +19,7 @@ import logging
 import threading
 from concurrent.futures import Future
 from concurrent.futures import ThreadPoolExecutor
+from concurrent.futures import wait
 
 
 class IllegalStateException(BaseException):
@@ -75,8 +76,6 @@ class TaskHandler:
     def flush(self):
         """Await completion of all pending tasks."""
         self._open = False
-        if len(self._pending) > 0:
-            for key in dict(self._pending).keys():
-                get = self._pending.get(key)
-                if get is not None:
-                    self._pending[key].result(10)
+        # tasks remove themselves from pending as they complete (on the worker thread), so we wait on a copy; we only
+        # wait for the tasks to finish - a task that failed has been logged already and must not fail the flush
+        wait(list(self._pending.values()), timeout=10)
